@@ -15,14 +15,6 @@ Record cobs := mkObs {
 Record case := mkCase { c_id : nat; c_trace : list label; c_obs : list cobs; c_complete : bool }.
 
 (* ---- pure trace functions (Spec side: no model state involved) ---- *)
-Fixpoint root_in (t : list label) (m : nat) : option nat :=
-  match t with
-  | [] => None
-  | LNewRoot r _ :: t' => if Nat.eqb r m then Some r else root_in t' m
-  | LChild p c :: t' => if Nat.eqb c m then None (* resolved by caller *) else root_in t' m
-  | _ :: t' => root_in t' m
-  end.
-
 (* monitor -> root, built left to right *)
 Fixpoint roots_of (t : list label) (acc : list (nat * nat)) : list (nat * nat) :=
   match t with
